@@ -7,6 +7,7 @@ import Prom.Drv.Timer
 import Prom.Drv.Fall
 import Prom.Drv.Conc
 import Prom.Drv.Text
+import Prom.Drv.Pb
 /- Line-protocol driver: one request per line on stdin, one result per line on stdout. -/
 open Prom Prom.Drv
 
@@ -23,6 +24,7 @@ def step (st : DState) (line : String) : DState × String :=
   | "hist" :: args => (st, histHandle args)
   | "desc" :: args => (st, descHandle args)
   | "text" :: args => (st, textHandle args)
+  | "pb" :: args => (st, pbHandle args)
   | "catom" :: args => (st, concHandle "catom" args)
   | "cvec" :: args => (st, concHandle "cvec" args)
   | "chist" :: args => (st, concHandle "chist" args)
